@@ -211,6 +211,10 @@ func (s *Schema) update(from *Schema) (err error) {
 	}
 
 	s.Cache = from.Cache
+	// the routine flushing async writes survives a change of settings
+	if s.asyncWritesEnabled() && from.asyncWritesEnabled() {
+		from.AsyncWrites.routineStarted = s.AsyncWrites.routineStarted
+	}
 	s.AsyncWrites = from.AsyncWrites
 
 	return
